@@ -74,6 +74,7 @@ type W struct {
 	set     map[string]struct{}
 	mu      sync.Mutex
 	journal *os.File
+	lastJ   string
 	rng     *rand.Rand
 	maxViol int
 }
@@ -109,7 +110,8 @@ func (w *W) Journal(format string, a ...any) {
 	defer w.mu.Unlock()
 	_, _ = w.journal.Seek(0, 0)
 	_ = w.journal.Truncate(0)
-	fmt.Fprintf(w.journal, format, a...)
+	w.lastJ = fmt.Sprintf(format, a...)
+	fmt.Fprint(w.journal, w.lastJ)
 }
 
 func (w *W) Distinct(sig string) {
@@ -177,6 +179,9 @@ func (w *W) Note(s string) {
 func (w *W) flush() {
 	w.mu.Lock()
 	defer w.mu.Unlock()
+	if len(w.Res.Samples) == 0 && w.Res.Evals > 0 && w.lastJ != "" {
+		w.Res.Samples = append(w.Res.Samples, map[string]any{"last_journaled_case": trunc(w.lastJ, 600)})
+	}
 	w.Res.DistinctSet = w.Res.DistinctSet[:0]
 	for k := range w.set {
 		w.Res.DistinctSet = append(w.Res.DistinctSet, k)
